@@ -641,6 +641,7 @@ def main():
         return
     want = req.get('want_signature')
     tried = 0
+    cut = None       # set when the enumeration is cut at the cap of this tier
     skip = set(req.get('skip_signatures') or [])
     # targeted histories for the known shapes first
     targeted = [
@@ -672,8 +673,9 @@ def main():
                               'signature': sig}, default=str))
             return
         if tried > (60000 if req.get('tier') == 'thorough' else 12000):
+            cut = tried
             break
-    print(json.dumps({'status': 'not-found', 'tried': tried}))
+    print(json.dumps({'status': 'not-found', 'tried': tried, 'truncated_at': cut}))
 
 
 if __name__ == '__main__':
